@@ -180,7 +180,11 @@ def annotate_fn(text, item: Fn, log, where):
         for k, (s_, b, kw) in enumerate(loops):
             if k in item.loops:
                 continue
-            inv = item.loop_fn(k, text[body_open + s_:body_open + b], kw)
+            import inspect as _insp
+            if len(_insp.signature(item.loop_fn).parameters) >= 4:
+                inv = item.loop_fn(k, text[body_open + s_:body_open + b], kw, text[body_open + b:match_delim(m, body_open + b) + 1])
+            else:
+                inv = item.loop_fn(k, text[body_open + s_:body_open + b], kw)
             if inv is None:
                 raise AnchorLost(f"{where}: loop #{k} (`{text[body_open + s_:body_open + b].strip()[:60]}`) has no invariant rule")
             inserts.append((body_open + b, "\n" + inv.strip() + "\n"))
@@ -346,7 +350,25 @@ def generate(unit: Unit, root, rules_mod):
         s, b, e = src.find_fn(it.name, it.container)
         orig = src.text[s:e + 1]
         where = f"{it.file}::{(it.container + '::') if it.container else ''}{it.name}"
-        if it.cut_before:
+        if it.cut_before == "@block-end":
+            # middle fragment ending where the block that encloses the start anchor ends (e.g. one match arm `=> { .. }`)
+            if not it.cut_from or orig.count(it.cut_from) != 1:
+                raise AnchorLost(f"{where}: cut_from anchor {it.cut_from!r} occurs {orig.count(it.cut_from or '')}x")
+            mo = mask(orig)
+            pos = orig.index(it.cut_from) + (len(it.cut_from) if it.cut_from.rstrip().endswith("{") else 0)
+            depth, k = 0, pos
+            while k > 0:
+                k -= 1
+                if mo[k] == "}":
+                    depth += 1
+                elif mo[k] == "{":
+                    if depth == 0:
+                        break
+                    depth -= 1
+            end = match_delim(mo, k)
+            orig_kept = orig[:end] + it.cut_tail + "\n}"
+            meta["rewrites"].append({"where": where, "kind": "fragment", "old": f"<everything after the block that starts at line {src.line_of(s + k)}>", "new": it.cut_tail, "count": 1})
+        elif it.cut_before:
             if it.cut_from:
                 # middle fragment: the end anchor is its first occurrence AFTER the (unique) start anchor
                 if orig.count(it.cut_from) != 1:
@@ -370,7 +392,10 @@ def generate(unit: Unit, root, rules_mod):
             if k != 1:
                 raise AnchorLost(f"{where}: cut_from anchor {it.cut_from!r} occurs {k}x")
             cut = orig_kept.index(it.cut_from)
-            cut = orig_kept.rfind("\n", 0, cut) + 1
+            if it.cut_from.rstrip().endswith("{"):
+                cut = cut + len(it.cut_from)          # anchor is a block header: the fragment is the inside of that block
+            else:
+                cut = orig_kept.rfind("\n", 0, cut) + 1
             meta["rewrites"].append({"where": where, "kind": "fragment", "old": f"<signature and {orig_kept[:cut].count(chr(10))} lines before `{it.cut_from}`>",
                                      "new": it.sig, "count": 1})
             orig_kept = it.sig.rstrip() + " {\n" + orig_kept[cut:]
